@@ -99,6 +99,8 @@ type c14Run struct {
 	rp     c14Replay
 	bad    bool
 	calls  int
+	// mergeSeen: the program deleted across a tree element boundary
+	mergeSeen bool
 }
 
 func newC14Run(res *runner.CaseResult, rp c14Replay) *c14Run {
@@ -117,7 +119,21 @@ func (r *c14Run) viol(kind, detail string) {
 	}
 	rp := r.rp
 	rp.Steps = r.steps
-	r.res.Violate(kind, detail+"\nprogram: "+strings.Join(prog, "; "), "", rp)
+	ident := ""
+	if r.mergeSeen {
+		// after a boundary-crossing tree deletion the symptoms of recorded finding
+		// F-TREE-MERGE-UNDO are identified as such (wrong content, index errors of the
+		// index-addressed fallback reverses); everything else stays a violation
+		switch kind {
+		case "undo-content-wrong", "redo-content-wrong":
+			ident = "after-tree-merge:content"
+		case "undo-failed", "redo-failed":
+			if strings.Contains(detail, "out of range") {
+				ident = "after-tree-merge:index-error"
+			}
+		}
+	}
+	r.res.Violate(kind, detail+"\nprogram: "+strings.Join(prog, "; "), ident, rp)
 }
 
 func (r *c14Run) cloneRoot(where string) bool {
@@ -368,6 +384,96 @@ func (w *c14Worker) runRandom(res *runner.CaseResult, idx int, exact bool) {
 	}
 }
 
+// runTreeMerge: tree programs whose deletions may cross a </p><p> boundary
+// (a merge; a delete without split), exact comparison.
+func (w *c14Worker) runTreeMerge(res *runner.CaseResult, idx int) {
+	rng := caseRng(w.seed^0xc14e, idx)
+	r := newC14Run(res, c14Replay{Family: "tree-merge", Seed: w.seed, Idx: idx, Exact: true})
+	r.do(c14Step{T: "update", E: []gen.Edit{{Op: "obj.set", K: "tree", V: &gen.Val{T: "tree", S: "ab"}}}})
+	p := []string{"tree"}
+	r.do(c14Step{T: "update", E: []gen.Edit{{Op: "tree.edit", Path: p, I: 4, J: 4, T: []gen.TN{{Type: "p", Kids: []gen.TN{{Type: "text", Text: "cd"}}}}}}})
+	r.do(c14Step{T: "update", E: []gen.Edit{{Op: "tree.edit", Path: p, I: 8, J: 8, T: []gen.TN{{Type: "p", Kids: []gen.TN{{Type: "text", Text: "ef"}}}}}}})
+	if rng.Intn(2) == 0 {
+		r.do(c14Step{T: "clear"})
+	}
+	merges := 0
+	edit := func() {
+		m := model.FromDoc(r.doc.RootObject())
+		t := m.Obj["tree"]
+		if t == nil || t.Tree == nil {
+			return
+		}
+		// paragraphs with their text spans: [start of text, end of text]
+		type span struct{ a, b int }
+		var ps []span
+		pos := 0
+		for _, it := range t.Tree.Items {
+			if it.El == nil {
+				pos++
+				continue
+			}
+			onlyText := true
+			for _, c := range it.El.Items {
+				if c.El != nil {
+					onlyText = false
+				}
+			}
+			if onlyText {
+				ps = append(ps, span{pos + 1, pos + 1 + it.El.Len()})
+			}
+			pos += it.El.Len() + 2
+		}
+		if len(ps) == 0 {
+			r.do(c14Step{T: "update", E: []gen.Edit{{Op: "tree.edit", Path: p, I: 0, J: 0, T: []gen.TN{{Type: "p", Kids: []gen.TN{{Type: "text", Text: "n"}}}}}}})
+			return
+		}
+		x := rng.Intn(100)
+		i := rng.Intn(len(ps))
+		switch {
+		case x < 30 && i+1 < len(ps):
+			// merge: from somewhere in paragraph i to somewhere in paragraph i+1
+			a := ps[i].a + rng.Intn(ps[i].b-ps[i].a+1)
+			b := ps[i+1].a + rng.Intn(ps[i+1].b-ps[i+1].a+1)
+			r.mergeSeen = true
+			if r.do(c14Step{T: "update", E: []gen.Edit{{Op: "tree.edit", Path: p, I: a, J: b}}}) {
+				merges++
+				res.AddStat("tree_merges", 1)
+			}
+		case x < 55:
+			at := ps[i].a + rng.Intn(ps[i].b-ps[i].a+1)
+			r.do(c14Step{T: "update", E: []gen.Edit{{Op: "tree.edit", Path: p, I: at, J: at, T: []gen.TN{{Type: "text", Text: string(rune('a' + rng.Intn(26)))}}}}})
+		case x < 75 && ps[i].b > ps[i].a:
+			a := ps[i].a + rng.Intn(ps[i].b-ps[i].a)
+			b := a + 1 + rng.Intn(ps[i].b-a)
+			r.do(c14Step{T: "update", E: []gen.Edit{{Op: "tree.edit", Path: p, I: a, J: b}}})
+		default:
+			at := ps[i].b + 1 // after the paragraph
+			r.do(c14Step{T: "update", E: []gen.Edit{{Op: "tree.edit", Path: p, I: at, J: at, T: []gen.TN{{Type: "p", Kids: []gen.TN{{Type: "text", Text: "xy"}}}}}}})
+		}
+	}
+	n := 3 + rng.Intn(12)
+	for i := 0; i < n && !r.bad; i++ {
+		edit()
+	}
+	for i, walk := 0, 6+rng.Intn(30); i < walk && !r.bad; i++ {
+		x := rng.Intn(100)
+		switch {
+		case x < 50:
+			for k := 1 + rng.Intn(4); k > 0 && r.do(c14Step{T: "undo"}); k-- {
+			}
+		case x < 90:
+			for k := 1 + rng.Intn(4); k > 0 && r.do(c14Step{T: "redo"}); k-- {
+			}
+		default:
+			edit()
+		}
+	}
+	r.deliverToPeer()
+	res.Hash = runner.HashOf(r.steps)
+	res.Nontrivial = merges >= 1 && r.calls >= 3
+	res.AddSet("families", "tree-merge")
+}
+
 func c14IsContentOp(op string) bool {
 	switch op {
 	case "txt.style", "tree.style", "tree.rmstyle", "arr.move", "arr.front", "arr.last", "arr.before", "arr.set":
@@ -502,6 +608,10 @@ func (w *c14Worker) Run(idx int) runner.CaseResult {
 		w.runExhaustive(&res, c14Families[idx/c14Chunks], idx%c14Chunks, c14Chunks)
 		return res
 	}
+	if idx%7 == 6 {
+		w.runTreeMerge(&res, idx)
+		return res
+	}
 	w.runRandom(&res, idx, idx%3 != 0)
 	return res
 }
@@ -514,6 +624,7 @@ func (w *c14Worker) Replay(data json.RawMessage) runner.CaseResult {
 		return res
 	}
 	r := newC14Run(&res, rp)
+	r.mergeSeen = rp.Family == "tree-merge"
 	for _, st := range rp.Steps {
 		r.do(st)
 	}
